@@ -384,4 +384,104 @@ theorem buildCoords_resolved (hα : BEqSound α) {cards : List (Card (CsBody α)
     · exact Or.inr ⟨c', (hmem c').mp hc', hcid, r, hr, hv⟩
 end
 
+/-- a successful `dedupe` of an id-sorted list means that cards with the same id were equal -/
+theorem dedupe_ok_noConflict [BEq β] (hβ : BEqSound β) :
+    ∀ (s d : List (Card β)), s.Pairwise (fun a b => a.cid ≤ b.cid) → dedupe s = .ok d → NoConflict s := by
+  intro s
+  induction s using dedupe.induct with
+  | case1 => intro d _ _ a ha; cases ha
+  | case2 a =>
+    intro d _ _ x hx y hy _
+    simp only [List.mem_singleton] at hx hy
+    rw [hx, hy]
+  | case3 a b rest hcid heq ih =>
+    intro d hs h
+    simp only [dedupe, hcid, if_true, heq] at h
+    have hab := card_eq_of_beq hβ heq
+    have ihh := ih d (List.Pairwise.of_cons hs) h
+    intro x hx y hy hxy
+    have mem : ∀ z, z ∈ a :: b :: rest → z ∈ b :: rest := by
+      intro z hz
+      rcases List.mem_cons.mp hz with rfl | hz
+      · rw [hab]; exact List.mem_cons_self
+      · exact hz
+    exact ihh x (mem x hx) y (mem y hy) hxy
+  | case4 a b rest hcid hne =>
+    intro d _ h
+    simp [dedupe, hcid, hne] at h
+  | case5 a b rest hcid ih =>
+    intro d hs h
+    simp only [dedupe, hcid, if_false] at h
+    cases hd : dedupe (b :: rest) with
+    | error e => simp [hd, Except.map] at h
+    | ok d' =>
+      have ihh := ih d' (List.Pairwise.of_cons hs) hd
+      have hlt : ∀ z ∈ b :: rest, a.cid < z.cid := by
+        intro z hz
+        have hab : a.cid ≤ b.cid := (List.pairwise_cons.mp hs).1 b List.mem_cons_self
+        have hbz : b.cid ≤ z.cid := by
+          rcases List.mem_cons.mp hz with rfl | hz
+          · exact Nat.le_refl _
+          · exact (List.pairwise_cons.mp (List.Pairwise.of_cons hs)).1 z hz
+        omega
+      intro x hx y hy hxy
+      rcases List.mem_cons.mp hx with hxa | hx <;> rcases List.mem_cons.mp hy with hya | hy
+      · rw [hxa, hya]
+      · have := hlt y hy; rw [hxa] at hxy; omega
+      · have := hlt x hx; rw [hya] at hxy; omega
+      · exact ihh x hx y hy hxy
+
+theorem dedupe_error [BEq β] : ∀ (s : List (Card β)) (e : BuildErr), dedupe s = .error e →
+    ∃ c, e = .dupUnequal c := by
+  intro s
+  induction s using dedupe.induct with
+  | case1 => intro e h; simp [dedupe] at h
+  | case2 a => intro e h; simp [dedupe] at h
+  | case3 a b rest hcid heq ih =>
+    intro e h
+    simp only [dedupe, hcid, if_true, heq] at h
+    exact ih e h
+  | case4 a b rest hcid hne =>
+    intro e h
+    simp only [dedupe, hcid, if_true, hne] at h
+    cases h
+    exact ⟨_, rfl⟩
+  | case5 a b rest hcid ih =>
+    intro e h
+    simp only [dedupe, hcid, if_false] at h
+    cases hd : dedupe (b :: rest) with
+    | error e' =>
+      simp only [hd, Except.map, Except.error.injEq] at h
+      subst h
+      exact ih e' hd
+    | ok d' => simp [hd, Except.map] at h
+
+/-- cards with the same id but different content are refused -/
+theorem buildLevels_refuses_conflict [BEq β] (hβ : BEqSound β) (cards : List (Card β))
+    (h : ¬ NoConflict cards) : ∃ c, buildLevels cards = .error (.dupUnequal c) := by
+  cases hd : dedupe (sortCards cards) with
+  | error e =>
+    obtain ⟨c, rfl⟩ := dedupe_error _ e hd
+    exact ⟨c, by simp [buildLevels, hd, bind, Except.bind]⟩
+  | ok d =>
+    exfalso
+    apply h
+    have := dedupe_ok_noConflict hβ _ d (sortCards_pairwise cards) hd
+    intro a ha b hb hab
+    exact this a ((sortCards_perm cards).mem_iff.mpr ha) b ((sortCards_perm cards).mem_iff.mpr hb) hab
+
+section
+variable {α : Type} [Add α] [Sub α] [Mul α] [Div α] [Neg α] [OfNat α 0] [OfNat α 1]
+  [OfNat α 180] [TransOps α] [BEq α]
+
+theorem buildCoords_refuses_conflict (hα : BEqSound α) (cards : List (Card (CsBody α)))
+    (h : ¬ NoConflict cards) : ∃ c, buildCoords cards = .error (.dupUnequal c) := by
+  obtain ⟨c, hc⟩ := buildLevels_refuses_conflict (csBody_beqSound hα) cards h
+  have hne : cards.isEmpty = false := by
+    cases cards with
+    | nil => exact absurd (fun a ha => by cases ha) h
+    | cons => rfl
+  exact ⟨c, by simp [buildCoords, hne, buildOrder, hc, bind, Except.bind, Except.map]⟩
+end
+
 end PyYetiVerif.Coord
